@@ -258,7 +258,8 @@ class StreamableHTTPTransport(Transport):
                         self._session_id = response.headers["mcp-session-id"]
                         logger.debug(f"Updated session ID: {self._session_id}")
 
-                    content_type = response.headers.get("content-type", "")
+                    # (media types are case-insensitive)
+                    content_type = response.headers.get("content-type", "").lower()
 
                     if "application/json" in content_type:
                         # Immediate JSON response
